@@ -163,4 +163,6 @@ pub fn guarded<F: FnOnce() -> String + std::panic::UnwindSafe>(f: F) -> String {
     }
 }
 
+pub mod act;
 pub mod c03;
+pub mod c05;
